@@ -1099,3 +1099,7 @@ Proof.
   split; [eapply ex_sound_conack; exact P |].
   split; [eapply ex_sound_dup; exact P | eapply ex_sound_non; exact P].
 Qed.
+
+Lemma ex_system_once : forall maxr cmid0 smid0 acts,
+  ex_P_once (ex_sys_trace (ex_cfg_guarded maxr) (ex_sys_init cmid0 smid0) acts).
+Proof. intros. apply (ex_system_safe maxr cmid0 smid0 acts). Qed.
